@@ -228,6 +228,18 @@ pub fn menu(prop: &str, tier: &str, depth: usize, e: &Exec) -> Vec<Op> {
             for c in ctxs.iter().skip(1) {
                 out.push(Op::Register { ctx: c.clone(), ttl: "".into() });
             }
+            // look-alike topics must not register anything; any frame's id used as a context
+            if !e.live.values().any(|m| m.frame.topic.starts_with("xs.context.")) {
+                out.push(app("xs.context.x", Ctx::Zero, ""));
+            }
+            if thorough && !e.live.values().any(|m| m.frame.topic == "xs.contexts") {
+                out.push(app("xs.contexts", Ctx::Zero, ""));
+            }
+            for (r, m) in e.live.values().enumerate() {
+                if m.frame.topic != "xs.context" && m.frame.topic != "a" {
+                    out.push(app("a", Ctx::OfFrame(r), ""));
+                }
+            }
             if thorough {
                 out.push(app("a", Ctx::Never, "ephemeral"));
             }
